@@ -169,6 +169,10 @@ def run(rep, tier):
         ('LOCAL-let-scope', 'after a nested `let` of the same name has ended, the name denotes the outer value again'),
         ('ARG-captures', 'a compound template argument is handed exactly the local names it uses (free variables '
                          'of the skeleton object) at the place of the call'),
+        ('PY-in-place', 'inline Python (predicates, applied functions, let values, arguments, bounds) is evaluated inside '
+                        'the rule function, where the bound names are in scope - never hoisted to module level'),
+        ('G3-protocol', 'List with name bounds: every exit leaves the registers definite (a count that is 0 at run time '
+                        'does not read a stale status)'),
         ('FREEVAR-visible', 'every verbatim emission of description text is visible to the free-variable protocol'),
         ('C05-class-ctor', 'constructor call lists exactly the fields, in order'),
         ('C05-class-members', 'let/pass members parsed but not passed; requires evaluated; binding order'),
